@@ -5,7 +5,9 @@ Model of the PARTITION test of dust-dds endpoint matching:
     fnmatch_to_regex :3381  (partition name -> regular expression, then `regex::Regex::is_match`)
 The regular expression is folded into a glob matcher for the pattern subset
     literal characters, `*` (-> `.*`), `?` (-> `.`), `[…]` / `[!…]` / `[^…]` with single characters and ranges `x-y`,
-    and `+` directly after a literal, `?` or class (the code turns it into the regex QUANTIFIER `+`, finding D20);
+    and `+` directly after a literal, `?` or class (the code turns it into the regex QUANTIFIER `+`, finding D20c — kept
+    open: two tests of the repository rely on it);
+the empty list is the default partition "" (fixes/D20a.patch; `partitionMatchOld` is the test before it);
 every other pattern (backslash, unclosed or empty class, class with other regex syntax, `+` elsewhere) is outside the model:
 `parsePat` returns `none` and the driver answers `bad-op`.
 `.` of the regex crate does not match '\n'; this is modelled.
@@ -108,9 +110,20 @@ def anyPatternMatch (ps ns : List Name) : Bool := ps.any (fun p => nameMatches p
 
 def anyCommonName (a b : List Name) : Bool := a.any (fun n => b.contains n)
 
+/-- matches_default_partition: is one of the names the empty name, or a pattern that matches the empty name? -/
+def matchesDefault (names : List Name) : Bool := names.any (fun n => n.isEmpty || globMatch n [])
+
+/-- is_default_partition_matched: one side has no names (= the default partition "") and the other side matches "" -/
+def defaultMatch (a b : List Name) : Bool := (a.isEmpty && matchesDefault b) || (b.isEmpty && matchesDefault a)
+
+/-- the inline test before fixes/D20a.patch -/
+def partitionMatchOld (received loc : List Name) : Bool :=
+  received == loc || anyCommonName received loc || anyPatternMatch received loc || anyPatternMatch loc received
+
 /-- the inline test: `received` = the partition of the discovered endpoint, `loc` = the partition of the local
-    publisher / subscriber (:886-891) -/
+    publisher / subscriber -/
 def partitionMatch (received loc : List Name) : Bool :=
   received == loc || anyCommonName received loc || anyPatternMatch received loc || anyPatternMatch loc received
+    || defaultMatch received loc
 
 end DustVerif.Partition
